@@ -266,7 +266,13 @@ func walkList(list []ast.Stmt, need *bool) {
 func rewriteStmt(s ast.Stmt, need *bool) ast.Stmt {
 	switch x := s.(type) {
 	case *ast.LabeledStmt:
+		_, wasSelect := x.Stmt.(*ast.SelectStmt)
 		x.Stmt = rewriteStmt(x.Stmt, need)
+		if _, still := x.Stmt.(*ast.SelectStmt); wasSelect && !still {
+			// the label of a select may be the target of "break L" as well as of "goto L": keep it on a
+			// statement that both may refer to (a one-armed switch around the rewritten block)
+			x.Stmt = &ast.SwitchStmt{Body: &ast.BlockStmt{List: []ast.Stmt{&ast.CaseClause{List: nil, Body: []ast.Stmt{x.Stmt}}}}}
+		}
 		return x
 	case *ast.GoStmt:
 		*need = true
